@@ -28,6 +28,8 @@ fn tx_ops(tx: &Transaction) {
     let _ = tx.nb_inputs(); let _ = tx.nb_outputs();
     let ex = tx.prefix.extra.try_parse(); let _ = format!("{}", ex); let _ = ex.tx_pubkey(); let _ = ex.tx_additional_pubkeys();
     let _ = ExtraField::try_parse(&tx.prefix.extra);
+    // re-serialisation of the PARSED extra and `From<ExtraField> for RawExtraField` (its `unwrap`), whatever try_parse said
+    let _ = serialize(&ex); let _ = RawExtraField::from(ex.clone());
     if let Some(sig) = &tx.rct_signatures.sig { let _ = sig.hash(); let _ = format!("{}", sig); }
     let vp = view_pair();
     let _ = tx.check_outputs(&vp, 0..2, 0..3);
@@ -429,6 +431,37 @@ pub fn run(o: &mut Out, tier: &str, seed: u64) {
       for (fam, n, mode) in sizes { let len = big_input(fam, *n).map(|x| x.1.len()).unwrap_or(0);
           let limit = if *mode == "parse" { big_bound(len) } else { bound(len) };
           iso.run_b(o, format!("c04_big {} {} {}", fam, n, mode), len, true, limit); o.stat("big.inputs"); o.stat_n("big.bytes", len as u64); } }
+
+    // (10) RingCT type Full with MANY inputs and a LONG first ring, the encoding cut shortly after the base part (before / inside
+    //      the MLSAG rows): the decoder may reserve one row, (inputs + 1) keys, at a time — never ring x (inputs + 1) x 32 bytes up
+    //      front (hundreds of MB for a few tens of KB of input). Held to the parse-only bound.
+    { use monero::util::ringct::RctType;
+      let shapes: &[(usize, usize)] = if thorough { &[(500, 1000), (2000, 1000), (1000, 8000), (2000, 4000), (700, 20_000), (1500, 600)] } else { &[(500, 1000), (1000, 8000), (2000, 4000), (1500, 3000)] };
+      for &(nin, ring) in shapes {
+          let inputs: Vec<TxIn> = (0..nin).map(|i| TxIn::ToKey { amount: VarInt(0), key_offsets: (0..(if i == 0 { ring } else { 1 })).map(|_| VarInt(r.below(100))).collect(), k_image: monero::blockdata::transaction::KeyImage { image: Hash(r.arr32()) } }).collect();
+          let prefix = TransactionPrefix { version: VarInt(2), unlock_time: VarInt(0), inputs, outputs: vec![], extra: RawExtraField(vec![]) };
+          let mut b = serialize(&prefix); b.push(gen::rct_num(RctType::Full)); b.extend(gen::varint_bytes(r.u64_boundary()));
+          o.stat("full_wide.shapes"); o.stat_n("full_wide.reserve_if_upfront_MB", ((ring * (nin + 1) * 32) >> 20) as u64);
+          for tail in [0usize, 1, 31, 32, 33, 32 * (nin + 1) - 1, 32 * (nin + 1), 32 * (nin + 1) + 40, 3 * 32 * (nin + 1) + 5] {
+              let mut m = b.clone(); m.extend(r.bytes(tail));
+              iso.run_b(o, format!("c04_ops tx {}", hex(&m)), m.len(), false, big_bound(m.len())); }
+          // the same counts handed to the public decoder directly
+          iso.run_b(o, format!("c04_dec prunable 1 {} 0 {} {}", nin, ring - 1, hex(&r.bytes(64))), 64, false, big_bound(64));
+      } }
+    // (11) operations on PARSED extras with LONG sub-fields: nonce / MinerGate blob of 255, 256, 300, 2000 bytes, additional-key lists of
+    //      8, 9, 63 keys — alone, after a transaction key, followed by an unknown tag (so that try_parse returns Err(fields) and the
+    //      fields kept are the long ones), and inside a miner transaction: `c04_ops extra` / `c04_ops tx` then run serialize(&extra),
+    //      RawExtraField::from (on the Ok and on the Err value), Display, tx_pubkey, tx_additional_pubkeys
+    { let mut tk = vec![1u8]; tk.extend(G_BYTES);
+      let mut subs: Vec<Vec<u8>> = vec![];
+      for len in [0usize, 1, 127, 128, 254, 255, 256, 300, 2000] { for tag in [2u8, 0xde] { let mut e = vec![tag]; e.extend(gen::varint_bytes(len as u64)); e.extend(r.bytes(len)); subs.push(e); } }
+      for n in [0usize, 1, 7, 8, 9, 63, 127, 128] { let mut e = vec![4u8]; e.extend(gen::varint_bytes(n as u64)); for _ in 0..n { e.extend(G_BYTES); } subs.push(e); }
+      for sub in &subs {
+          let variants: Vec<Vec<u8>> = vec![sub.clone(), [tk.clone(), sub.clone()].concat(), [sub.clone(), vec![7u8, 1, 2]].concat(), [tk.clone(), sub.clone(), sub.clone(), vec![0xff]].concat(), [sub.clone(), tk.clone(), vec![0u8; 3]].concat()];
+          for e in &variants {
+              bin(&mut iso, o, "extra", e, true);
+              let mut tx = gen::miner_tx(&mut r); tx.prefix.extra = RawExtraField(e.clone()); let b = serialize(&tx); bin(&mut iso, o, "tx", &b, true); }
+          o.stat("long_subfields"); } }
     let _ = iso.kid.child.kill(); let _ = iso.kid.child.wait();
     o.stat_n("child.respawns", iso.respawns);
     o.notes.push(format!("every case ran in a child process under catch_unwind, a {} s limit and a counting allocator; claimed bound peak <= 2*CAP + 4 MiB + 160*|input|; non-trivial = inputs that parse (all public operations are then run on the value); c04_big parse-only cases are held to 2*CAP + 64 KiB + 160*|input|; c04_dec = public decoders with caller-chosen usize counts (the family Full + inputs = usize::MAX is guarded: confirmed overflow panic at ringct.rs `1 + inputs`, pending triage)", LIMIT_MS / 1000));
